@@ -368,3 +368,132 @@ CAMLprim value vp_comp_from_str(value s)
 	if (mtbl_compression_type_from_str(String_val(s), &t) != mtbl_res_success) return Val_int(0);
 	return some(Val_long(t));
 }
+
+/* ---- merger, test merge / dupsort callbacks, user-defined sources ------------------ */
+struct vp_merge_clos { int kind; long calls; long fail_at; };
+/* kind 1: merged = v0 ++ "|" ++ v1 (order-revealing).  fail_at = n: the n-th call (1-based)
+ * fails by leaving *merged_val untouched. */
+static void vp_merge_func(void *clos, const uint8_t *key, size_t len_key,
+			  const uint8_t *val0, size_t len_val0, const uint8_t *val1, size_t len_val1,
+			  uint8_t **merged_val, size_t *len_merged_val)
+{
+	struct vp_merge_clos *c = clos;
+	(void) key; (void) len_key;
+	c->calls++;
+	if (c->fail_at > 0 && c->calls == c->fail_at) return;
+	*len_merged_val = len_val0 + 1 + len_val1;
+	*merged_val = malloc(*len_merged_val + 1);
+	memcpy(*merged_val, val0, len_val0);
+	(*merged_val)[len_val0] = '|';
+	memcpy(*merged_val + len_val0 + 1, val1, len_val1);
+}
+/* dupsort: kind 1 ascending bytewise on values, kind 2 descending */
+static int vp_dupsort_func(void *clos, const uint8_t *key, size_t len_key,
+			   const uint8_t *val0, size_t len_val0, const uint8_t *val1, size_t len_val1)
+{
+	(void) key; (void) len_key;
+	int r = bytes_compare(val0, len_val0, val1, len_val1);
+	return ((intptr_t) clos == 2) ? -r : r;
+}
+CAMLprim value vp_merge_clos_new(value kind, value fail_at)
+{
+	struct vp_merge_clos *c = calloc(1, sizeof(*c));
+	c->kind = Long_val(kind); c->fail_at = Long_val(fail_at);
+	return mk_ptr(c);
+}
+CAMLprim value vp_merge_clos_calls(value c) { return Val_long(((struct vp_merge_clos *) PTR(c))->calls); }
+CAMLprim value vp_merge_clos_free(value c) { free(PTR(c)); return Val_unit; }
+/* merger_init(merge clos or 0, dupsort kind 0/1/2) */
+CAMLprim value vp_merger_init(value mclos, value dupsort)
+{
+	struct mtbl_merger_options *mo = mtbl_merger_options_init();
+	if (PTR(mclos) != NULL) mtbl_merger_options_set_merge_func(mo, vp_merge_func, PTR(mclos));
+	if (Long_val(dupsort) != 0) mtbl_merger_options_set_dupsort_func(mo, vp_dupsort_func, (void *)(intptr_t) Long_val(dupsort));
+	struct mtbl_merger *m = mtbl_merger_init(mo);
+	mtbl_merger_options_destroy(&mo);
+	return mk_ptr(m);
+}
+CAMLprim value vp_merger_add_source(value m, value s) { mtbl_merger_add_source(PTR(m), PTR(s)); return Val_unit; }
+CAMLprim value vp_merger_source(value m) { return mk_ptr(mtbl_merger_source(PTR(m))); }
+CAMLprim value vp_merger_destroy(value m) { struct mtbl_merger *p = PTR(m); mtbl_merger_destroy(&p); return Val_unit; }
+
+/* a user-defined source over an in-memory sorted table that hands out FRESH buffers on every
+ * call and poisons + frees the ones handed out by the previous call on that iterator */
+struct vp_usrc { size_t n; uint8_t **k; size_t *lk; uint8_t **v; size_t *lv; struct mtbl_source *src; };
+struct vp_uiter { struct vp_usrc *u; size_t pos; int kind; uint8_t *b0; size_t lb0; uint8_t *b1; size_t lb1;
+		  uint8_t *pk; size_t plk; uint8_t *pv; size_t plv; int valid; };
+static void vp_uiter_drop_prev(struct vp_uiter *it)
+{
+	if (it->pk) { memset(it->pk, 0xDD, it->plk); free(it->pk); it->pk = NULL; }
+	if (it->pv) { memset(it->pv, 0xDD, it->plv); free(it->pv); it->pv = NULL; }
+}
+static size_t vp_usrc_first_ge(struct vp_usrc *u, const uint8_t *key, size_t len)
+{
+	size_t i = 0;
+	while (i < u->n && bytes_compare(u->k[i], u->lk[i], key, len) < 0) i++;
+	return i;
+}
+static mtbl_res vp_uiter_seek(void *v, const uint8_t *key, size_t len)
+{
+	struct vp_uiter *it = v;
+	vp_uiter_drop_prev(it);
+	it->pos = vp_usrc_first_ge(it->u, key, len); it->valid = 1;
+	return mtbl_res_success;
+}
+static mtbl_res vp_uiter_next(void *v, const uint8_t **key, size_t *len_key, const uint8_t **val, size_t *len_val)
+{
+	struct vp_uiter *it = v; struct vp_usrc *u = it->u;
+	vp_uiter_drop_prev(it);
+	if (!it->valid) return mtbl_res_failure;
+	if (it->pos >= u->n) { it->valid = 0; return mtbl_res_failure; }
+	size_t i = it->pos;
+	int ok = 1;
+	if (it->kind == 1) ok = bytes_compare(u->k[i], u->lk[i], it->b0, it->lb0) == 0;
+	else if (it->kind == 2) ok = (it->lb0 <= u->lk[i] && memcmp(it->b0, u->k[i], it->lb0) == 0);
+	else if (it->kind == 3) ok = bytes_compare(u->k[i], u->lk[i], it->b1, it->lb1) <= 0;
+	if (!ok) { it->valid = 0; return mtbl_res_failure; }
+	it->pos++;
+	it->plk = u->lk[i]; it->pk = malloc(it->plk + 1); memcpy(it->pk, u->k[i], it->plk);
+	it->plv = u->lv[i]; it->pv = malloc(it->plv + 1); memcpy(it->pv, u->v[i], it->plv);
+	*key = it->pk; *len_key = it->plk; *val = it->pv; *len_val = it->plv;
+	return mtbl_res_success;
+}
+static void vp_uiter_free(void *v) { struct vp_uiter *it = v; vp_uiter_drop_prev(it); free(it->b0); free(it->b1); free(it); }
+static struct mtbl_iter *vp_uiter_make(struct vp_usrc *u, int kind, const uint8_t *b0, size_t lb0, const uint8_t *b1, size_t lb1, size_t pos)
+{
+	struct vp_uiter *it = calloc(1, sizeof(*it));
+	it->u = u; it->kind = kind; it->pos = pos; it->valid = 1;
+	if (b0 || kind) { it->b0 = malloc(lb0 + 1); memcpy(it->b0, b0, lb0); it->lb0 = lb0; }
+	if (b1 || kind == 3) { it->b1 = malloc(lb1 + 1); memcpy(it->b1, b1, lb1); it->lb1 = lb1; }
+	return mtbl_iter_init(vp_uiter_seek, vp_uiter_next, vp_uiter_free, it);
+}
+static struct mtbl_iter *vp_usrc_iter(void *c) { return vp_uiter_make(c, 0, NULL, 0, NULL, 0, 0); }
+static struct mtbl_iter *vp_usrc_get(void *c, const uint8_t *k, size_t l) { return vp_uiter_make(c, 1, k, l, NULL, 0, vp_usrc_first_ge(c, k, l)); }
+static struct mtbl_iter *vp_usrc_get_prefix(void *c, const uint8_t *k, size_t l) { return vp_uiter_make(c, 2, k, l, NULL, 0, vp_usrc_first_ge(c, k, l)); }
+static struct mtbl_iter *vp_usrc_get_range(void *c, const uint8_t *k0, size_t l0, const uint8_t *k1, size_t l1)
+{ return vp_uiter_make(c, 3, k0, l0, k1, l1, vp_usrc_first_ge(c, k0, l0)); }
+/* entries: array of (key, val) strings, already sorted by key */
+CAMLprim value vp_usrc_new(value arr)
+{
+	CAMLparam1(arr);
+	struct vp_usrc *u = calloc(1, sizeof(*u));
+	u->n = Wosize_val(arr);
+	u->k = calloc(u->n + 1, sizeof(void *)); u->v = calloc(u->n + 1, sizeof(void *));
+	u->lk = calloc(u->n + 1, sizeof(size_t)); u->lv = calloc(u->n + 1, sizeof(size_t));
+	for (size_t i = 0; i < u->n; i++) {
+		value p = Field(arr, i);
+		u->lk[i] = caml_string_length(Field(p, 0)); u->k[i] = malloc(u->lk[i] + 1); memcpy(u->k[i], String_val(Field(p, 0)), u->lk[i]);
+		u->lv[i] = caml_string_length(Field(p, 1)); u->v[i] = malloc(u->lv[i] + 1); memcpy(u->v[i], String_val(Field(p, 1)), u->lv[i]);
+	}
+	u->src = mtbl_source_init(vp_usrc_iter, vp_usrc_get, vp_usrc_get_prefix, vp_usrc_get_range, NULL, u);
+	CAMLreturn(mk_ptr(u));
+}
+CAMLprim value vp_usrc_source(value u) { return mk_ptr(((struct vp_usrc *) PTR(u))->src); }
+CAMLprim value vp_usrc_free(value uv)
+{
+	struct vp_usrc *u = PTR(uv);
+	for (size_t i = 0; i < u->n; i++) { free(u->k[i]); free(u->v[i]); }
+	free(u->k); free(u->v); free(u->lk); free(u->lv);
+	mtbl_source_destroy(&u->src); free(u);
+	return Val_unit;
+}
